@@ -40,6 +40,7 @@ Step(e, s, ev) ==
          ELSE IF s.pend # <<>> THEN No(s, "the wire ends inside a frame")
          ELSE IF \E p \in 1..NP(e) : s.written[p] # Len(e.obs.msgs[p]) THEN No(s, "a submitted message was never written")
          ELSE Ok(s)
+    [] ev.e = "Overrun" -> No(s, "the writer wrote more than twice the bytes that were submitted (cut off by the rig)")
     [] OTHER -> Ok(s)
 Init == l \in 1..Len(Trace) /\ k = 1 /\ st = St0(Trace[l]) /\ dead = FALSE
 Next ==
